@@ -475,7 +475,15 @@ def sig_a(step, b):
 
 
 def bfs_a(max_depth):
+    try:
+        return bfs_a_(max_depth, True)
+    except common.FingerprintTooFine:
+        return bfs_a_(max_depth, False)
+
+
+def bfs_a_(max_depth, use_fp):
     coopsched.install()
+    refstates = set()
     seen = {R().canon(): ()}
     refs = {R().canon(): R()}
     frontier = collections.deque([()])
@@ -497,8 +505,11 @@ def bfs_a(max_depth):
             if r1 is None:
                 continue
             c = r1.canon()
-            if r1.hidden is not None:
+            refstates.add(c)
+            if r1.hidden is not None and use_fp:
                 c = (c, r1.hidden)
+                common.fp_guard(len(seen), len(refstates), factor=12,
+                                slack=100)
             if c not in seen:
                 seen[c] = h + (step,)
                 refs[c] = r1
